@@ -235,7 +235,7 @@ func Profile(name string) Knobs {
 		k.PFaults = 0.2
 		k.NoEvictCallFaults = true
 		k.PTopology = 0.1
-		k.PDRA = draAccounting // DRA (dra.go)
+		k.PDRA = draAccounting  // DRA (dra.go)
 		k.PDRAGpu = draGpuShare // DRA GPU-class claims (dra_gpu.go)
 		k.PNodeGone = 0.08
 	case "mixed":
